@@ -130,6 +130,103 @@ func runC11(c *Check) {
 		})
 	}
 	c.Floor("C11-R4", 5)
+	c.scanDirections(prune, pruneFrom)
+}
+
+// scanDirections (R5): Prune looks for the first match scanning from the root, so its
+// loops over a location's lines and over a sample's locations run downwards from the last
+// index; PruneFrom looks for the lowest match and scans upwards from index 0.
+func (c *Check) scanDirections(prune, pruneFrom *ssa.Function) {
+	p := c.P
+	for _, spec := range []struct {
+		f    *ssa.Function
+		down bool
+	}{{prune, true}, {pruneFrom, false}} {
+		n := 0
+		for _, b := range spec.f.Blocks {
+			for _, ins := range b.Instrs {
+				ia, ok := ins.(*ssa.IndexAddr)
+				if !ok {
+					continue
+				}
+				ld, ok := ia.X.(*ssa.UnOp)
+				if !ok {
+					continue
+				}
+				fa, ok := ld.X.(*ssa.FieldAddr)
+				if !ok {
+					continue
+				}
+				T, F := fieldOf(fa.X.Type(), fa.Field)
+				if !(T == "profile.Location" && F == "Line") && !(T == "profile.Sample" && F == "Location") {
+					continue
+				}
+				if _, isConst := ia.Index.(*ssa.Const); isConst {
+					continue
+				}
+				dir := loopDirection(ia.Index)
+				n++
+				key := fmt.Sprintf("scan:%s:%s.%s", spec.f.Name(), T, F)
+				want := "downwards from the last index (root side first)"
+				if !spec.down {
+					want = "upwards from index 0 (leaf side first)"
+				}
+				switch {
+				case dir == "":
+					c.undecided("C11-R5", key, p.relFile(ia.Pos()), "cannot determine the direction of the scan over "+T+"."+F+" in "+spec.f.Name())
+				case (dir == "down") == spec.down:
+					c.ok("C11-R5", key, p.relFile(ia.Pos()), spec.f.Name()+" scans "+T+"."+F+" "+want, "loop index shape")
+				default:
+					c.bad("C11-R5", key, p.relFile(ia.Pos()), spec.f.Name()+" must scan "+T+"."+F+" "+want+" because it stops at the first match, but the loop runs the other way: with two matching frames the wrong one is chosen")
+				}
+			}
+		}
+		if n == 0 {
+			c.undecided("C11-R5", "scan:"+spec.f.Name(), p.relFile(spec.f.Pos()), "no scan over Location.Line / Sample.Location found")
+		}
+	}
+}
+
+// loopDirection: "up" for a range index or i = 0; i++, "down" for i = len-1; i--.
+func loopDirection(idx ssa.Value) string {
+	if rangeIndex(idx) {
+		return "up"
+	}
+	phi, ok := idx.(*ssa.Phi)
+	if !ok {
+		return ""
+	}
+	dir := ""
+	for _, e := range phi.Edges {
+		switch x := e.(type) {
+		case *ssa.Const:
+			if x.Int64() == 0 && dir != "down" {
+				dir = "up"
+			}
+		case *ssa.BinOp:
+			k, isK := constInt(x.Y)
+			switch {
+			case x.Op == token.SUB && x.X == ssa.Value(phi) && isK && k == 1:
+				if dir == "up" {
+					return ""
+				}
+				dir = "down"
+			case x.Op == token.ADD && x.X == ssa.Value(phi) && isK && k == 1:
+				if dir == "down" {
+					return ""
+				}
+				dir = "up"
+			case x.Op == token.SUB && lenArg(x.X) != nil && isK && k == 1:
+				dir = "down"
+			}
+		case *ssa.Phi:
+			// merge of continue paths: look one level down
+			if d := loopDirection(x); d != "" {
+				dir = d
+			}
+		}
+	}
+	return dir
 }
 
 func storeAt(e Effect) *ssa.Store {
@@ -277,12 +374,50 @@ func compileArgs(v ssa.Value, seen map[ssa.Value]bool) []ssa.Value {
 		if sc := x.Call.StaticCallee(); sc != nil && (sc.String() == "regexp.Compile" || sc.String() == "regexp.MustCompile") {
 			return []ssa.Value{x.Call.Args[0]}
 		}
+		// a module helper that compiles an expression built from its parameters: take the
+		// pattern it compiles and substitute the arguments of this call
+		if sc := x.Call.StaticCallee(); sc != nil && fnInModule(sc) && sc.Blocks != nil {
+			var out []ssa.Value
+			for _, b := range sc.Blocks {
+				ret, ok := b.Instrs[len(b.Instrs)-1].(*ssa.Return)
+				if !ok || len(ret.Results) == 0 {
+					continue
+				}
+				for _, pat := range compileArgs(ret.Results[0], map[ssa.Value]bool{}) {
+					out = append(out, &substPattern{pat: pat, callee: sc, args: x.Call.Args})
+				}
+			}
+			return out
+		}
 	}
 	return nil
 }
 
+// substPattern is a pattern expression of a helper function together with the call that
+// supplies its parameters.
+type substPattern struct {
+	ssa.Value
+	pat    ssa.Value
+	callee *ssa.Function
+	args   []ssa.Value
+}
+
 // concatLeaves flattens a string concatenation into its operands.
 func concatLeaves(v ssa.Value) []ssa.Value {
+	if sp, ok := v.(*substPattern); ok {
+		var out []ssa.Value
+		for _, l := range concatLeaves(sp.pat) {
+			if pr, ok := l.(*ssa.Parameter); ok {
+				for i, q := range sp.callee.Params {
+					if q == pr && i < len(sp.args) {
+						l = sp.args[i]
+					}
+				}
+			}
+			out = append(out, l)
+		}
+		return out
+	}
 	if b, ok := v.(*ssa.BinOp); ok && b.Op == token.ADD {
 		return append(concatLeaves(b.X), concatLeaves(b.Y)...)
 	}
